@@ -60,18 +60,29 @@ def resolve (D : Path) (s : FS) : Nat → Path → List String → Except RErr P
       | some (.file _) => if rest = [] then .ok (cur ++ [c]) else .error .notdir
       | some (.link t) => resolve D s fuel (if t.abs then D else cur) (t.comps ++ rest)
 
-def fuel0 : Nat := 400
+/-- longest link text (in components) in the state -/
+def maxLinkLen (s : FS) : Nat :=
+  s.keys.foldl (fun m p => match s.get p with | some (.link t) => max m t.comps.length | _ => m) 0
+
+/-- Fuel that suffices for every resolution the kernel itself would finish: one step per component of the path, and
+for each of the at most 40 links the kernel follows (MAXSYMLINKS) one step per component of its text.  `resolve`'s
+answer does not depend on the fuel once it is not `.loop` (`resolve_fuel_mono`), a path that meets no link never gets
+`.loop` from this much fuel (`resolve_nolink_adequate`), and a path of any length is handled (no fixed bound). -/
+def fuelFor (s : FS) (cs : List String) : Nat := cs.length + 40 * (maxLinkLen s + 1) + 1
+
+/-- resolution with adequate fuel -/
+def resolveA (D : Path) (s : FS) (cur : Path) (cs : List String) : Except RErr Path := resolve D s (fuelFor s cs) cur cs
 
 /-- `os.Stat(D/rel)`: the object the path finally denotes.  Paths the unpacker touches are `D` joined with a cleaned
 relative path; the directories above `D` are plain directories, so resolution starts at `D`. -/
 def statRel (D : Path) (s : FS) (rel : List String) : Option Obj :=
-  match resolve D s fuel0 D rel with
+  match resolveA D s D rel with
   | .ok q => s.get q
   | .error _ => none
 
 /-- `os.Stat` of an arbitrary path of the sandbox (used by the clean-up for lexically joined link targets) -/
 def statAbs (D : Path) (s : FS) (p : Path) : Option Obj :=
-  match resolve D s fuel0 [] p with
+  match resolveA D s [] p with
   | .ok q => s.get q
   | .error _ => none
 
@@ -80,7 +91,7 @@ def lstatOk (D : Path) (s : FS) (rel : List String) : Bool :=
   match rel.getLast? with
   | none => true
   | some name =>
-    match resolve D s fuel0 D rel.dropLast with
+    match resolveA D s D rel.dropLast with
     | .error _ => false
     | .ok pp => s.get pp == some .dir && !tooLong name && (s.get (pp ++ [name])).isSome
 
@@ -89,7 +100,7 @@ def mkdir1 (D : Path) (s : FS) (rel : List String) : FS × Bool :=
   match rel.getLast? with
   | none => (s, true)
   | some name =>
-    match resolve D s fuel0 D rel.dropLast with
+    match resolveA D s D rel.dropLast with
     | .error _ => (s, false)
     | .ok pp =>
       if s.get pp != some .dir || tooLong name then (s, false)
@@ -150,7 +161,7 @@ def unpackStep (D : Path) (s : FS) (e : TarEntry) : Step :=
     match mkdirAll D s rel.dropLast with
     | (s1, false) => .fatal s1
     | (s1, true) =>
-      match resolve D s1 fuel0 D rel.dropLast with                   -- pathOutsideBaseDirectory: EvalSymlinks(parent)
+      match resolveA D s1 D rel.dropLast with                   -- pathOutsideBaseDirectory: EvalSymlinks(parent)
       | .error _ => .ok s1
       | .ok pp =>
         if !isPrefix D pp then .ok s1 else
@@ -166,7 +177,7 @@ def unpackStep (D : Path) (s : FS) (e : TarEntry) : Step :=
     if e.linkRaw = "" then .ok s1 else
     let t : Target := if e.linkAbs then ⟨true, (cleanComps true e.linkComps).2, ""⟩        -- filepath.Join(dir, target)
                       else ⟨false, e.linkComps, e.linkRaw⟩
-    match resolve D s1 fuel0 D rel.dropLast with                     -- os.Symlink(targetPath, fullPath)
+    match resolveA D s1 D rel.dropLast with                     -- os.Symlink(targetPath, fullPath)
     | .error _ => .ok s1
     | .ok pp =>
       let name := rel.getLast?.getD ""
